@@ -68,6 +68,18 @@ CHECKS = {
              "variable names, escape sequences, format verbs other than %s/%%. One known finding (Dart $var followed by an identifier-like delimiter).",
         technique="Coq generator+evaluator model, induction over prefix segments, trace validation against compiler output and compiled generated code",
         design="5/C08"),
+    "C09": dict(
+        text="Coq theorems (no axioms) over the FContext heap model and the header codec: after a request travelled as bytes, the handler's "
+             "context holds exactly the caller's headers (all names but _opid: user headers, correlation id, timeout), a fresh op id, and a "
+             "response map carrying the request's op id and correlation id and nothing else, the caller's context untouched; a request without "
+             "op id is rejected; after the reply travelled back every response header the handler set (any name but _opid) is on the caller's "
+             "context, earlier ones kept, a handler-set _opid cannot displace the caller's; timeouts travel as whole milliseconds. Tied to the "
+             "code by replaying seeded calls through the real FProtocol (WriteRequestHeader / ReadRequestHeader / WriteResponseHeader / "
+             "ReadResponseHeader over a memory transport) and comparing all maps of all contexts after every step inside Coq. Partial: "
+             "context/header level only - transports and generated code are exercised by C03, not by this check.",
+        note="Trusted: Coq kernel + vm_compute; harness as test equipment; header block < 2^31 bytes; FContext methods atomic (C17).",
+        technique="Coq heap model + codec round-trip composition + vm_compute trace-validation judge",
+        design="5/C09"),
     "C10": dict(
         text="Coq theorems about an executable model of the parser (the pigeon grammar REGENERATED from grammar.peg.go on every build, a "
              "pigeon-semantics interpreter, the 44 semantic actions): termination on every input from a verified well-formedness check; "
